@@ -45,7 +45,10 @@ def gen_case(seed, tier, prop="C18"):
                 "end": rng.choice(["eof", "eof", "close", "eof_close"]),
                 "recv_sizes": [rng.choice([1, 3, 11, 100, 65536]) for _ in range(3)],
                 "rpause": [rng.choice([0, 0, 0.125, 0.5]) for _ in range(3)],
-                "probe": rng.choice([None, None, None, "busy_send", "busy_recv", "use_after_close", "close_blocked_reader"])}
+                "probe": rng.choice([None, None, None, "busy_send", "busy_recv", "use_after_close", "close_blocked_reader"]),
+                # request/response style: after its last send() the writer stays connected and silent until the peer has
+                # read everything (no EOF or further data that could push a stuck remainder out)
+                "wait_peer": rng.random() < 0.4}
 
     a, b = side(), side()
     total = sum(a["msgs"]) + sum(b["msgs"])
@@ -154,6 +157,22 @@ class SockRun:
                     if e["tr"] is not None and e["tr"].get_write_buffer_size() != 0:
                         self.v("backpressure", f"{name}: send() returned while {e['tr'].get_write_buffer_size()} bytes are still "
                                                f"buffered in user space")
+                if cfg.get("wait_peer"):
+                    peer = ends["b" if name == "a" else "a"]
+                    t_idle = loop.time()
+                    seen = len(peer["got"])
+                    while len(peer["got"]) < len(e["sent"]) and peer["end"] is None and not peer["closed"]:
+                        if len(peer["got"]) != seen:
+                            seen = len(peer["got"])
+                            t_idle = loop.time()
+                        if loop.time() - t_idle > 60:
+                            self.v("lost", f"{name}->{'b' if name == 'a' else 'a'}: the writer stayed connected and idle after its "
+                                           f"last send(); the peer's reader has {len(peer['got'])} of the {len(e['sent'])} bytes "
+                                           f"whose send() had completed and has made no progress for 60 virtual seconds")
+                            break
+                        await sleep(0.25)
+                    else:
+                        self.bump("peer_read_everything_while_writer_idle")
                 if cfg["end"] in ("eof", "eof_close"):
                     await st.send_eof()
                     self.h.rec("eof", name)
